@@ -222,6 +222,52 @@ def r2_tree_follows_storage(ctx):
                             r.ok(k, cfg.loc(bb, i), "tree cut length derives from %s (no forward hash search)" % sorted({last_seg(n) for n in names})[:6], work=len(sl.nodes))
             if not n_tr:
                 r.ok(key + "|tree-cut-length", cfg.loc(body), "no Vec::truncate of the leaves here (tree rebuilt another way)", work=1)
+            # file-system side: the new file length accumulates over ALL pruned records
+            for bb in fn.bodies:
+                bdefs = cfg.defs_of(bb)
+                for i, t in idioms.real_calls(bb, cfg.live_blocks(bb)):
+                    if cname(t) != "set_len" or len(t["args"]) < 2:
+                        continue
+                    lp = cfg.op_place(t["args"][1])
+                    if lp is None:
+                        continue
+                    # resolve copies to the variable that is updated in the loop
+                    l = cfg.place_local(lp)
+                    for _h in range(4):
+                        ds = bdefs.get(l, [])
+                        if len(ds) == 1 and not ds[0][2] and ds[0][1].get("k") == "use" and cfg.op_place(ds[0][1]["ops"][0]):
+                            l = cfg.place_local(cfg.op_place(ds[0][1]["ops"][0]))
+                        else:
+                            break
+                    sl = fg.back([(bb.path, l)])
+                    self_dep = False
+                    for (_bi, st, is_term) in bdefs.get(l, []):
+                        ops_ = st.get("ops") if not is_term else st.get("args")
+                        for o in ops_ or []:
+                            p2 = cfg.op_place(o)
+                            if p2 is None:
+                                continue
+                            l2 = cfg.place_local(p2)
+                            # `length -= x` : (a copy of) length is an operand of its own definition
+                            seen_, stack_ = set(), [l2]
+                            while stack_:
+                                x = stack_.pop()
+                                if x in seen_:
+                                    continue
+                                seen_.add(x)
+                                if x == l:
+                                    self_dep = True
+                                for (_b2, s2, t2) in bdefs.get(x, []):
+                                    if not t2 and s2.get("k") in ("use", "bin", "cast"):
+                                        for o2 in s2["ops"]:
+                                            if cfg.op_place(o2):
+                                                stack_.append(cfg.place_local(cfg.op_place(o2)))
+                    positional = any(cname(ct) in ("offset", "start", "stream_position", "position", "seek") for _b, _i, ct in sl.calls)
+                    k2 = key + "|file-cut-accumulates"
+                    if self_dep or positional:
+                        r.ok(k2, cfg.loc(bb, i), "the new file length %s" % ("is accumulated over the pruned records" if self_dep else "is a record position"), work=len(sl.nodes))
+                    else:
+                        r.violation(k2, cfg.loc(bb, i), "the length the file is cut to is recomputed from the total for each record instead of accumulating: only one record is removed from the file while the tree loses all pruned leaves", work=len(sl.nodes))
             # the pruned records are removed one by one: a set of their hashes
             # forgets how many copies of a byte-identical event were pruned
             for bb in fn.bodies:
